@@ -3,9 +3,10 @@
                                     _type_to_template_internal (BFS over __bases__, memo shared by both walks)
      src/nunavut/jinja/__init__.py  filter_type_to_template, _create_instance_tests_for_type / _create_all_dsdl_tests
    Classes are numbers (ids of the regenerated table Generated/Gen_Lookup.v), template paths are strings.
-   Quirk switches select between the faithful model of the unchanged code and the conformant behaviour:
-     q_shared   : the memo `_type_to_template_lookup_cache` is one dict used by the file-system walk and the package walk
-     q_dt_only  : `_field_is_instance` looks ONLY at `.data_type` when the value is a pydsdl.Attribute *)
+   The memo `_type_to_template_lookup_cache` is ONE dict keyed by (walk, class) (since fix 1341207), walk = "fs" | "package".
+   Quirk switches document what the code did before the fixes (not used for the live theorems):
+     q_shared   : the package walk used the same key space as the file-system walk (memo keyed by class only)
+     q_dt_only  : `_field_is_instance` looked ONLY at `.data_type` when the value is a pydsdl.Attribute *)
 From Verif Require Import Str.
 Import ListNotations.
 Open Scope N_scope.
@@ -23,6 +24,21 @@ Fixpoint basename_aux (s acc : str) : str :=
   match s with [] => acc | c :: s' => if c =? 47 then basename_aux s' [] else basename_aux s' (acc ++ [c]) end.
 Definition basename (s : str) : str := basename_aux s [].                                  (* pathlib.Path(s).name *)
 
+(* pathlib (3.12) suffix / stem of a file name:  i = name.rfind('.');  0 < i < len(name) - 1 ? name[i:] / name[:i] : '' / name *)
+Fixpoint rsplit_dot (s : str) : option (str * str) :=
+  match s with
+  | [] => None
+  | c :: s' => match rsplit_dot s' with
+               | Some (a, b) => Some (c :: a, b)
+               | None => if c =? 46 then Some ([], c :: s') else None
+               end
+  end.
+Definition dot_ok (a b : str) : bool := negb (match a with [] => true | _ => false end) && (1 <? length b)%nat.
+Definition py_suffix (name : str) : str :=
+  match rsplit_dot name with Some (a, b) => if dot_ok a b then b else [] | None => [] end.
+Definition py_stem (name : str) : str :=
+  match rsplit_dot name with Some (a, b) => if dot_ok a b then a else name | None => name end.
+
 (* ---- dict(map(lambda x: (Path(x).stem, Path(x)), listing)): later entries replace earlier ones ---------------- *)
 Fixpoint aget {A : Type} (l : list (str * A)) (n : str) : option A :=
   match l with
@@ -33,11 +49,15 @@ Notation tset := (list (str * path)) (only parsing).       (* listing of one loa
 
 Definition memN (x : N) (l : list N) : bool := existsb (N.eqb x) l.
 
-(* ---- the memo ----------------------------------------------------------------------------------- *)
-Definition cache := list (N * path).
-Fixpoint cget (c : cache) (k : cls) : option path :=
-  match c with [] => None | (k', v) :: c' => if k' =? k then Some v else cget c' k end.
-Definition cset (c : cache) (k : cls) (v : path) : cache := (k, v) :: c.
+(* ---- the memo: dict keyed by (walk, class); walk false = "fs", true = "package" ---------------------- *)
+Definition ckey := (bool * N)%type.
+Definition ckey_eqb (a b : ckey) : bool := Bool.eqb (fst a) (fst b) && (snd a =? snd b).
+Definition cache := list (ckey * path).
+Fixpoint cget (c : cache) (k : ckey) : option path :=
+  match c with [] => None | (k', v) :: c' => if ckey_eqb k' k then Some v else cget c' k end.
+Definition cset (c : cache) (k : ckey) (v : path) : cache := (k, v) :: c.
+Definition W_FS : bool := false.
+Definition W_PKG : bool := true.
 
 Inductive policy := FIND_FIRST | FIND_ALL.
 Inductive source := SrcFs | SrcPkg.
@@ -56,42 +76,39 @@ Section Loader.
     end.
 
   (* _type_to_template_internal; `fuel` bounds the while loop (the class graph is finite and acyclic) *)
-  Fixpoint bfs (T : cls -> option path) (fuel : nat) (q disc : list cls) (ch : cache) : cache * option path :=
+  Fixpoint bfs (T : cls -> option path) (w : bool) (fuel : nat) (q disc : list cls) (ch : cache) : cache * option path :=
     match fuel with
     | O => (ch, None)
     | S f =>
       match q with
       | [] => (ch, None)
       | cur :: q' =>
-        match cget ch cur with
+        match cget ch (w, cur) with
         | Some p => (ch, Some p)
         | None =>
           match T cur with
-          | Some p => (cset ch cur p, Some p)
-          | None => let '(q2, d2) := push_bases cur (bases cur) q' disc in bfs T f q2 d2 ch
+          | Some p => (cset ch (w, cur) p, Some p)
+          | None => let '(q2, d2) := push_bases cur (bases cur) q' disc in bfs T w f q2 d2 ch
           end
         end
       end
     end.
 
-  (* type_to_template.  State = (memo seen by the file-system walk, memo seen by the package walk); with q_shared the
-     package walk reads and writes the first one, as the unchanged code does. *)
+  (* type_to_template: the file-system walk (key "fs"), then -- only if it returned None -- the package walk (key "package").
+     With q_shared (the code before fix 1341207) the package walk used the key space of the file-system walk. *)
   Definition type_to_template (q_shared : bool) (fs pkg : option (cls -> option path)) (fuel : nat)
-             (st : cache * cache) (c : cls) : (cache * cache) * option path :=
-    let '(cf, cp) := st in
-    let '(cf1, r1) := match fs with Some T => bfs T fuel [c] [] cf | None => (cf, None) end in
+             (ch : cache) (c : cls) : cache * option path :=
+    let '(ch1, r1) := match fs with Some T => bfs T W_FS fuel [c] [] ch | None => (ch, None) end in
     match r1, pkg with
-    | None, Some T =>
-        if q_shared then let '(cf2, r2) := bfs T fuel [c] [] cf1 in ((cf2, cp), r2)
-        else let '(cp2, r2) := bfs T fuel [c] [] cp in ((cf1, cp2), r2)
-    | _, _ => ((cf1, cp), r1)
+    | None, Some T => bfs T (if q_shared then W_FS else W_PKG) fuel [c] [] ch1
+    | _, _ => (ch1, r1)
     end.
 
-  Fixpoint run_seq (q_shared : bool) (fs pkg : option (cls -> option path)) (fuel : nat) (st : cache * cache) (cs : list cls)
+  Fixpoint run_seq (q_shared : bool) (fs pkg : option (cls -> option path)) (fuel : nat) (ch : cache) (cs : list cls)
     : list (option path) :=
     match cs with
     | [] => []
-    | c :: cs' => let '(st', r) := type_to_template q_shared fs pkg fuel st c in r :: run_seq q_shared fs pkg fuel st' cs'
+    | c :: cs' => let '(ch', r) := type_to_template q_shared fs pkg fuel ch c in r :: run_seq q_shared fs pkg fuel ch' cs'
     end.
 
   (* ---- the property's own definition: nearest class of the inheritance chain that has a template --------------- *)
@@ -129,13 +146,18 @@ Definition mk_loaders {A : Type} (pol : policy) (dirs pkg : option A) : option A
    end).
 
 (* ---- get_source: file-system loader first, package loader as fallback ------------------------------------------- *)
-Definition has_file (l : tset) (name : path) : bool := existsb (fun e => str_eqb (snd e) name) l.
-Definition get_source (fs pkg : option tset) (name : path) : option source :=
+Definition has_file (l : list path) (name : path) : bool := existsb (fun e => str_eqb e name) l.     (* raw listing *)
+Definition get_source (fs pkg : option (list path)) (name : path) : option source :=
   match fs with
   | Some l => if has_file l name then Some SrcFs
               else match pkg with Some p => if has_file p name then Some SrcPkg else None | None => None end
   | None => match pkg with Some p => if has_file p name then Some SrcPkg else None | None => None end
   end.
+
+(* listing of a loader -> the index built by type_to_template:
+     filtered = [f for f in listing if Path(f).suffix == TEMPLATE_SUFFIX];  dict(map(lambda x: (Path(x).stem, Path(x)), filtered)) *)
+Definition mk_tset (suffix : str) (listing : list path) : tset :=
+  map (fun p => (py_stem (basename p), p)) (filter (fun p => str_eqb (py_suffix (basename p)) suffix) listing).
 
 (* template mapping of one loader for classes: templates[current_search_type.__name__] *)
 Definition tmap (cname : cls -> str) (l : tset) : cls -> option path := fun c => aget l (cname c).
